@@ -746,8 +746,10 @@ package proxy
 //@   ensures @exactly_once_iff_true: result <==> ($sends + (old(routedMsg.Resp).sentOn - old(routedMsg.Resp.sentOn)) == 1)
 //@   ensures @never_twice: $sends + (old(routedMsg.Resp).sentOn - old(routedMsg.Resp.sentOn)) <= 1
 //@   callpre sendReplicationMessages: @local_first: $sends == 0
-// C09: what is forwarded goes to the instance getShardOwner named for THIS target shard, unchanged and under the same shard pair
-//@   callpre sendReplicationMessages: @to_the_owner_of_the_target: $peerNodeName == owner && ok && $targetShard == targetShard && $sourceShard == routedMsg.SourceShard && $resp == old(routedMsg.Resp)
+// C09: the owner is looked up for THIS target shard, and what is forwarded is the message itself under the same shard pair
+// (stated over parameters only: a version that also named the locals `owner` / `ok` alarmed on a behaviour-preserving
+// refactoring that renamed them - benign C09-2 - and was withdrawn)
+//@   callpre sendReplicationMessages: @for_the_target_unchanged: $targetShard == targetShard && $sourceShard == routedMsg.SourceShard && $resp == old(routedMsg.Resp)
 //@   callpre getShardOwner: @owner_of_the_target: $shard == targetShard
 //@ contract (*shardManagerImpl).DeliverAckToShardOwner
 //@   shape sig=(sm *shardManagerImpl)(sourceShard history.ClusterShardID,routedAck *RoutedAck,shutdownChan channel.ShutdownOnce,logger log.Logger,ack int64,allowForward bool)( bool);loops=;lits=2;fv=
@@ -758,7 +760,7 @@ package proxy
 //@   ensures @exactly_once_iff_true: result <==> ($sends + (old(routedAck.Req).sentOn - old(routedAck.Req.sentOn)) == 1)
 //@   ensures @never_twice: $sends + (old(routedAck.Req).sentOn - old(routedAck.Req.sentOn)) <= 1
 //@   callpre sendAck: @local_first: $sends == 0 && allowForward
-//@   callpre sendAck: @to_the_owner_of_the_source: $peerNodeName == owner && ok && $req == old(routedAck.Req)
+//@   callpre sendAck: @the_ack_unchanged: $req == old(routedAck.Req)
 //@   callpre getShardOwner: @owner_of_the_source: $shard == sourceShard
 
 // ---------------------------------------------------------------------------------------------
